@@ -293,7 +293,7 @@ func (db *MultiBucketBackend) DeleteBucket(name string) (rerr error) {
 	}
 
 	// FIXME(bw): the error handling logic here is a little janky:
-	if err := db.bucketFs.RemoveAll(name); os.IsNotExist(err) {
+	if err := removeTree(db.bucketFs, name); os.IsNotExist(err) {
 		rerr = gofakes3.BucketNotFound(name)
 	} else if err != nil {
 		return err
@@ -318,13 +318,13 @@ func (db *MultiBucketBackend) ForceDeleteBucket(name string) error {
 
 	for _, entry := range entries {
 		fullPath := path.Join(name, entry.Name())
-		if err := db.bucketFs.RemoveAll(fullPath); err != nil {
+		if err := removeTree(db.bucketFs, fullPath); err != nil {
 			return err
 		}
 	}
 
 	// Delete the bucket itself
-	if err := db.bucketFs.RemoveAll(name); err != nil {
+	if err := removeTree(db.bucketFs, name); err != nil {
 		return err
 	}
 
